@@ -1659,7 +1659,7 @@ Engine MakeEngine()
     Engine e;
     e.prop = "C20";
     e.name = "nodesim/utxo-snapshot";
-    e.level = "fault_enumeration";
+    e.level = "exploration";
     e.gen = Gen;
     e.run = Run;
     e.describe = Describe;
